@@ -10,6 +10,7 @@
 (c) engine H: histories of open / mutate caller dict / init / re-init / fresh session / lookups.
 """
 import copy
+import itertools
 import json
 import os
 
@@ -184,7 +185,10 @@ def eval_prefix(item):
                 probes.add(i[:ln])
         for q in ("9", "99", "0" * 31, "dead", "0123456789abcdef0123456789abcdee"):
             probes.add(q)
-        for q in sorted(probes):
+        sessions = [None]
+        if kind == "real":
+            sessions += list(ids)  # a session that has already accessed exactly one of the jobs (in-memory cache warm)
+        for warm, q in itertools.product(sessions, sorted(probes)):
             matches = [i for i in ids if i.startswith(q)]
             if len(q) == 32:
                 want = ("id", q) if q in ids else ("KeyError", None)
@@ -192,7 +196,10 @@ def eval_prefix(item):
                 want = ("id", matches[0]) if len(matches) == 1 else (("LookupError", None) if matches else ("KeyError", None))
             n += 1
             try:
-                job = signac.Project(d).open_job(id=q)
+                proj = signac.Project(d)
+                if warm is not None:
+                    proj.open_job(id=warm).statepoint()
+                job = proj.open_job(id=q)
                 got = ("id", job.id)
                 if kind == "real" and got == want:
                     if not canon.typed_eq(canon.plain(job.statepoint()), sps[job.id]):
@@ -204,8 +211,9 @@ def eval_prefix(item):
             except Exception as e:  # noqa
                 got = (type(e).__name__, str(e))
             if got != want:
-                bad("prefix-resolution-wrong", f"open_job(id={q!r}) among {ids}: {got}, expected {want}", list(want), list(got),
-                    expected_outcome=want[0], observed_outcome=got[0])
+                bad("prefix-resolution-wrong", f"open_job(id={q!r}) among {ids} (session had accessed {warm}): {got}, "
+                    f"expected {want}", list(want), list(got), expected_outcome=want[0], observed_outcome=got[0],
+                    warm_session=warm is not None)
     return {"cls": kind, "viol": viol, "n": n, "nt": f"{kind}:{len(ids)}:{payload if kind != 'real' else len(payload)}"[:80],
             "sample": {"kind": kind, "ids": ids[:3], "probes": n}}
 
